@@ -216,6 +216,7 @@ structure Good (c : Ctx) (fm : List FirstSet) (S : State) : Prop where
   closed : Closed c fm S
   gen : ∀ y ∈ S, y.dot = 0 → y = startItem c ∨ ∃ x ∈ S, ∃ imp, impliedItems c fm x = some imp ∧ y ∈ imp
   wf : ∀ y ∈ S, WfItem c y
+  total : ∀ x ∈ S, ∃ imp, impliedItems c fm x = some imp
 
 /-- every kernel item of the target is an item of the source moved over `X` -/
 def KernelOK (c : Ctx) (src tgt : State) (X : Sym Nat Nat) : Prop :=
@@ -295,7 +296,8 @@ theorem StepSpec.sameJ {c : Ctx} {fm : List FirstSet} {b b' : Builder} {tgt : St
 
 theorem good_union {c : Ctx} {fm : List FirstSet} {A B U : State} (hA : Good c fm A) (hB : Good c fm B)
     (hs : Oset.Sorted U) (hm : ∀ y, y ∈ U ↔ y ∈ A ∨ y ∈ B) : Good c fm U := by
-  refine ⟨hs, ?_, ?_, fun y hy => ((hm y).mp hy).elim (hA.wf y) (hB.wf y)⟩
+  refine ⟨hs, ?_, ?_, fun y hy => ((hm y).mp hy).elim (hA.wf y) (hB.wf y),
+    fun y hy => ((hm y).mp hy).elim (hA.total y) (hB.total y)⟩
   · intro x hx imp himp y hy
     rcases (hm x).mp hx with h | h
     · exact (hm y).mpr (Or.inl (hA.closed x h imp himp y hy))
@@ -558,7 +560,7 @@ theorem good_of_closure {c : Ctx} {fm : List FirstSet} (hwf : CtxWF c) (hfb : Fm
     intro y hy
     obtain ⟨x, _, _, rfl⟩ := mem_transitionItems.mp hy
     simp
-  refine ⟨⟨h1, h3, ?_, fun y hy => reach_wf hwf hfb hKwf (h4 y hy)⟩, ?_, h2, ?_, closure_cores h2 h3 h4 h6, ?_⟩
+  refine ⟨⟨h1, h3, ?_, fun y hy => reach_wf hwf hfb hKwf (h4 y hy), h6⟩, ?_, h2, ?_, closure_cores h2 h3 h4 h6, ?_⟩
   · intro y hy hd
     rcases h5 y hy with hk | hg
     · have := kernel_dot y hk; omega
@@ -824,7 +826,7 @@ theorem buildLoop_spec {c : Ctx} {fm : List FirstSet} (hwf : CtxWF c) (hfb : FmB
 theorem initial_inv {c : Ctx} {fm : List FirstSet} (hwf : CtxWF c) (hfb : FmBound c.nT fm) {fuel : Nat} {start : State}
     (h : closureLoop c fm fuel [startItem c] Oset.new = some (some start)) :
     BInv c fm (fun _ _ => False) ⟨[start], [], [0]⟩ ∧ startItem c ∈ start := by
-  obtain ⟨h1, h2, h3, h4, h5, _⟩ := closure_spec h
+  obtain ⟨h1, h2, h3, h4, h5, h6⟩ := closure_spec h
   have hz : ∀ y ∈ start, y.dot = 0 := by
     intro y hy
     rcases h5 y hy with hk | ⟨x, _, imp, hi, hyi⟩
@@ -846,7 +848,7 @@ theorem initial_inv {c : Ctx} {fm : List FirstSet} (hwf : CtxWF c) (hfb : FmBoun
   intro i hi
   simp at hi; subst hi
   simp only [List.getD_cons_zero]
-  refine ⟨h1, h3, ?_, ?_⟩
+  refine ⟨h1, h3, ?_, ?_, h6⟩
   · intro y hy _
     rcases h5 y hy with hk | hg
     · left; simpa using hk
